@@ -17,12 +17,22 @@
       translate / eval / fsem   fn_to_sympy + SymPy's printer + CPython: C06 soundness is the hypothesis
                                 [eval (translate f margs) en = fsem f (values of margs in en)]
       same_fn                   SymPy's structural comparison of two positional functions
-                                ([_positional_fn(..) == _positional_fn(..)]): equal => same function. *)
+                                ([_positional_fn(..) == _positional_fn(..)]): equal => same function.
+
+    Three further REGENERATED facts describe the naming machinery of the repaired generator, each pinned
+    at its shipped value by [C11_facts_pinned]; the other value is the shape of a seeded change and has
+    a regression theorem here:
+      gf_param_check   _parameter_names: a candidate name is checked against the parameters emitted so
+                       far AND every model name of the argument list (PnAllArgs) / only the former
+      gf_interchange   _register_fn: definitions share a name iff their POSITIONAL forms are equal
+                       (IcPositional) / already when their substituted expressions are equal
+      gf_rename        _fn_to_symbolic_repr: fn_to_sympy puts the model names in, simultaneously
+                       (RnDelegated) / own sequential .subs *)
 From Coq Require Import ZArith List Bool String.
 From MxlBase Require Import ListX.
 From Core Require Import Sort GenSortFacts Model Cache Query.
 From MxlGen Require Import SymRepr GenMxlGenFacts ExpectedFacts MxlGen MxlGenSpec MxlGenSem MxlGenProofs
-                           Corr CorrProofs MxlGenWitness.
+                           Corr CorrProofs ParamNames MxlGenWitness NamingWitness.
 Import ListNotations.
 Local Open Scope string_scope.
 Local Open Scope N_scope.
@@ -236,3 +246,156 @@ Example C11_roundtrip_nonvacuous :
   /\ exists c, generate cexpr nstr (c_fname Tw) (c_translate Tw) c_same_fn (C11_facts RegFresh) m_all = Some c
                /\ map fst (c_defs c) = ["f_sub"; "f_sub_1"; "rate"; "rate_1"].
 Proof. exact full_nonvacuous. Qed.
+
+
+(** ---------------------------------------------------------------------------------------------------
+    The naming machinery of the repaired generator (facts gf_param_check / gf_interchange / gf_rename)
+    --------------------------------------------------------------------------------------------------- *)
+
+(** [_parameter_names]: the search for an unused parameter name (arg, arg_1, arg_2, ...) always ends
+    within len(names) + len(args) + 1 candidates -- whatever the while condition *)
+Theorem C11_parameter_names_total :
+  forall (check : pn_check) (args : list string), parameter_names check args <> None.
+Proof. exact parameter_names_total. Qed.
+Print Assumptions C11_parameter_names_total.
+
+(** [_parameter_names] as shipped (PnAllArgs), for EVERY argument list (component names with pairwise
+    different texts; repetitions allowed; names that look like fresh names allowed): as many parameters
+    as arguments, pairwise different (the def compiles), and the text of every model name of the list,
+    looked up among the emitted parameters bound left to right, yields the value passed at the name's
+    FIRST position -- i.e. exactly the binding [combine args vals] (first binding wins) under which
+    MxlGen.defsem evaluates the body, and on which C11_roundtrip rests *)
+Theorem C11_parameter_names_bind_first :
+  forall (nstr : name -> string) (args : list name) (ps : list string),
+    (forall x y, In x args -> In y args -> nstr x = nstr y -> x = y) ->
+    parameter_names PnAllArgs (map nstr args) = Some ps ->
+    length ps = length args /\ NoDup ps
+    /\ forall (vals : list Z) (margs : list name), incl margs args ->
+         sbinds (map nstr margs) ps vals = lookups margs (combine args vals).
+Proof. exact parameter_names_sound. Qed.
+Print Assumptions C11_parameter_names_bind_first.
+
+(** REGRESSION (seeded change C11-1, PnEmittedOnly): checked only against the parameters emitted so
+    far, (n0011, n0011, n0011_1) is emitted as def f(n0011, n0011_1, n0011_1_1): the parameters are
+    pairwise different, the def compiles -- and the body's n0011_1 reads the value of n0011 (2, not 5) *)
+Theorem C11_parameter_names_emitted_only_refuted :
+  exists (args : list name) (ps : list string) (vals : list Z) (a : name),
+    (forall x y, In x args -> In y args -> nstr x = nstr y -> x = y)
+    /\ parameter_names PnEmittedOnly (map nstr args) = Some ps
+    /\ NoDup ps /\ In a args
+    /\ sbind (nstr a) ps vals = Some 2%Z
+    /\ lookup a (combine args vals) = Some 5%Z.
+Proof. exact parameter_names_emitted_only_refuted. Qed.
+Print Assumptions C11_parameter_names_emitted_only_refuted.
+
+(** The FULL statement for the facts as they are regenerated: [_register_fn]'s test is built from the
+    fact [gf_interchange F]; with IcPositional only the positional comparison enters (soundness
+    hypothesis on [same_fn] alone; [subst_eq] -- SymPy's == on the substituted expressions -- is
+    arbitrary) *)
+Theorem C11_roundtrip_shipped :
+  forall (E : Type) (nstr : name -> string) (fname : fnid -> string)
+         (translate : fnid -> list name -> option E) (eval : E -> env -> option Z)
+         (subst_eq same_fn : E * list name -> E * list name -> bool)
+         (fsem : fnid -> list Z -> option Z) (fsemN : fnid -> list Z -> option (list Z)) (SF : sort_facts),
+    (forall f margs e, translate f margs = Some e ->
+       forall en vs, lookups margs en = Some vs -> eval e en = fsem f vs) ->
+    (forall q p, same_fn q p = true ->
+       forall vs, defsem E eval (fst q) (snd q) vs = defsem E eval (fst p) (snd p) vs) ->
+    forall (F : gen_facts) (m : model) (c : code E),
+      gf_register F = RegFresh -> gf_interchange F = IcPositional ->
+      UniqueIds m -> m_sur m = [] -> m_dat m = [] ->
+      generate E nstr fname translate (interchange_test (gf_interchange F) subst_eq same_fn) F m = Some c ->
+      exists m', exec_code E c = Built m'
+        /\ keys (m_var m') = keys (m_var m) /\ keys (m_par m') = keys (m_par m)
+        /\ keys (m_der m') = keys (m_der m) /\ keys (m_rxn m') = keys (m_rxn m)
+        /\ match create_cache fsem fsemN SF m, create_cache (fsem_gen E eval (c_defs c)) fsemN SF m' with
+           | Val ch, Val ch' =>
+             c_init ch' = c_init ch /\ c_base_par ch' = c_base_par ch /\ c_all_par ch' = c_all_par ch
+             /\ forall vars t,
+                  get_args (fsem_gen E eval (c_defs c)) fsemN m' ch' vars t = get_args fsem fsemN m ch vars t
+                  /\ get_fluxes (fsem_gen E eval (c_defs c)) fsemN m' ch' vars t = get_fluxes fsem fsemN m ch vars t
+                  /\ get_rhs (fsem_gen E eval (c_defs c)) fsemN m' ch' vars t = get_rhs fsem fsemN m ch vars t
+           | Err e, Err e' => e' = e
+           | _, _ => False
+           end.
+Proof. exact roundtrip_shipped. Qed.
+Print Assumptions C11_roundtrip_shipped.
+
+(** REGRESSION (seeded change C11-2, IcSubstFirst): moda.excess(a, b) = a - b on (x, y) and
+    modb.excess(a, b) = b - a on (y, x) have the same substituted expression x - y and different
+    positional forms.  With "substituted expressions equal => interchangeable" ONE def [excess] (the
+    later one) is emitted and the earlier component is called with swapped arguments: -3 instead of 3 *)
+Theorem C11_substituted_equality_refuted :
+  c_subst_eq ((3, [11; 12]), [11; 12]) ((3, [11; 12]), [12; 11]) = true
+  /\ c_same_fn ((3, [11; 12]), [11; 12]) ((3, [11; 12]), [12; 11]) = false
+  /\ exists (m' : model) (D : fdict cexpr) (ch ch' : cache),
+       UniqueIds m_excess
+       /\ roundtrip cexpr nstr (c_fname Tn) (c_translate Tn) (c_interchange IcSubstFirst) Fn m_excess = Built (m', D)
+       /\ map fst D = ["excess"]
+       /\ create_cache (c_fsem Tn) no_fsemN gen_sort_facts m_excess = Val ch
+       /\ create_cache (fsem_gen cexpr c_eval D) no_fsemN gen_sort_facts m' = Val ch'
+       /\ get_args (c_fsem Tn) no_fsemN m_excess ch [(11, 5%Z); (12, 2%Z)] 0
+          = Val [(0, 0%Z); (11, 5%Z); (12, 2%Z); (14, 3%Z); (15, 3%Z)]
+       /\ get_args (fsem_gen cexpr c_eval D) no_fsemN m' ch' [(11, 5%Z); (12, 2%Z)] 0
+          = Val [(0, 0%Z); (11, 5%Z); (12, 2%Z); (14, (-3)%Z); (15, 3%Z)].
+Proof. exact substituted_equality_refuted. Qed.
+Print Assumptions C11_substituted_equality_refuted.
+
+(** REGRESSION (seeded change C11-3, RnSequential): components a, b, c; f_sub(a, b) applied to (b, c).
+    Putting the model names in one after the other (a -> b, then b -> c) yields c - c: the rebuilt
+    derived quantity is 0, the source's is 3 *)
+Theorem C11_sequential_renaming_refuted :
+  c_translate_seq Tn 3 [9002; 9003] = Some (3, [9003; 9003])
+  /\ c_translate Tn 3 [9002; 9003] = Some (3, [9002; 9003])
+  /\ exists (m' : model) (D : fdict cexpr) (ch ch' : cache),
+       UniqueIds m_abc
+       /\ roundtrip cexpr nstr (c_fname Tn) (c_translate_by RnSequential Tn) c_same_fn Fn m_abc = Built (m', D)
+       /\ create_cache (c_fsem Tn) no_fsemN gen_sort_facts m_abc = Val ch
+       /\ create_cache (fsem_gen cexpr c_eval D) no_fsemN gen_sort_facts m' = Val ch'
+       /\ get_args (c_fsem Tn) no_fsemN m_abc ch [(9001, 2%Z); (9002, 7%Z); (9003, 4%Z)] 0
+          = Val [(0, 0%Z); (9001, 2%Z); (9002, 7%Z); (9003, 4%Z); (11, 3%Z)]
+       /\ get_args (fsem_gen cexpr c_eval D) no_fsemN m' ch' [(9001, 2%Z); (9002, 7%Z); (9003, 4%Z)] 0
+          = Val [(0, 0%Z); (9001, 2%Z); (9002, 7%Z); (9003, 4%Z); (11, 0%Z)].
+Proof. exact sequential_renaming_refuted. Qed.
+Print Assumptions C11_sequential_renaming_refuted.
+
+(** ... and WHEN the sequential replacement is harmless (why the repo's own tests do not notice it):
+    if no replacement puts in a name that a later replacement rewrites, one-after-the-other equals
+    first-match-wins for every list of names; the witness above is outside this guard *)
+Theorem C11_sequential_renaming_partial :
+  (forall (pairs : list (name * name)) (l : list name),
+      chain_free pairs = true -> subs_seq pairs l = map (sim1 pairs) l)
+  /\ chain_free [(9001, 9002); (9002, 9003)] = false
+  /\ subs_seq [(9001, 9002); (9002, 9003)] [9001; 9002] = [9003; 9003]
+  /\ map (sim1 [(9001, 9002); (9002, 9003)]) [9001; 9002] = [9002; 9003].
+Proof. exact (conj sequential_renaming_partial sequential_renaming_guard_witness). Qed.
+Print Assumptions C11_sequential_renaming_partial.
+
+(** the same three witnesses under the shipped facts: (n0011, n0011, n0011_1) is emitted as
+    def f(n0011, n0011_2, n0011_1) and n0011_1 reads its own value; two defs [excess], [excess_1] with
+    the source's values; f_sub(b, c) rebuilt as 3 *)
+Theorem C11_naming_witnesses_rebuild :
+  (parameter_names PnAllArgs (map nstr w_args) = Some ["n0011"; "n0011_2"; "n0011_1"]
+   /\ sbind (nstr 10011) ["n0011"; "n0011_2"; "n0011_1"] w_vals = lookup 10011 (combine w_args w_vals))
+  /\ (exists (m' : model) (D : fdict cexpr) (ch' : cache),
+        roundtrip cexpr nstr (c_fname Tn) (c_translate Tn) (c_interchange IcPositional) Fn m_excess = Built (m', D)
+        /\ map fst D = ["excess"; "excess_1"]
+        /\ create_cache (fsem_gen cexpr c_eval D) no_fsemN gen_sort_facts m' = Val ch'
+        /\ get_args (fsem_gen cexpr c_eval D) no_fsemN m' ch' [(11, 5%Z); (12, 2%Z)] 0
+           = Val [(0, 0%Z); (11, 5%Z); (12, 2%Z); (14, 3%Z); (15, 3%Z)])
+  /\ (exists (m' : model) (D : fdict cexpr) (ch' : cache),
+        roundtrip cexpr nstr (c_fname Tn) (c_translate_by RnDelegated Tn) c_same_fn Fn m_abc = Built (m', D)
+        /\ create_cache (fsem_gen cexpr c_eval D) no_fsemN gen_sort_facts m' = Val ch'
+        /\ get_args (fsem_gen cexpr c_eval D) no_fsemN m' ch' [(9001, 2%Z); (9002, 7%Z); (9003, 4%Z)] 0
+           = Val [(0, 0%Z); (9001, 2%Z); (9002, 7%Z); (9003, 4%Z); (11, 3%Z)]).
+Proof. exact (conj parameter_names_witness (conj positional_test_witness delegated_renaming_witness)). Qed.
+Print Assumptions C11_naming_witnesses_rebuild.
+
+(** the hypotheses of C11_parameter_names_bind_first are met by an argument list with a repetition AND a
+    component that looks like the first fresh name (texts pairwise different under the harness's nstr) *)
+Example C11_parameter_names_nonvacuous :
+  (forall x y, In x w_args -> In y w_args -> nstr x = nstr y -> x = y)
+  /\ w_args = [11; 11; 10011]
+  /\ map nstr w_args = ["n0011"; "n0011"; "n0011_1"]
+  /\ parameter_names PnAllArgs (map nstr w_args) = Some ["n0011"; "n0011_2"; "n0011_1"].
+Proof. exact (conj w_args_nstr_inj (conj eq_refl (conj eq_refl (proj1 parameter_names_witness)))). Qed.
